@@ -25,10 +25,15 @@ func main() {
 		}
 		for _, n := range os.Args[2:] {
 			mode := ""
+			var track []string
 			if i := strings.Index(n, "@"); i >= 0 {
 				n, mode = n[:i], n[i+1:]
+				if j := strings.Index(mode, "@"); j >= 0 {
+					track = strings.Split(mode[j+1:], "|")
+					mode = mode[:j]
+				}
 			}
-			if err := discoverGuards(p, n, mode); err != nil {
+			if err := discoverGuards(p, n, mode, track); err != nil {
 				fmt.Println("ERR", err)
 			}
 		}
